@@ -969,6 +969,27 @@ def body_hyperbolic(case, ctx):
     for i, w in enumerate(case["words"]):
         ctx.check(np.array_equal(np.asarray(comp.matrix)[i], np.asarray(h[wstr(w)].matrix)),
                   "composite entry i is the image of word i", i=i)
+    # the adjoint action on the Lie algebra of a form that is not diagonal: the plain
+    # representation conjugated by C preserves F = C^T J C; composing it with
+    # lie.hom.form_adjoint(F) generator by generator gives, for every word, what the same
+    # map gives on the image of the word (the basis of the algebra is the library's)
+    if 3 <= n <= 4:
+        from geometry_tools import lie as _lie
+        Cf = np.eye(n) + 0.3 * np.triu(np.ones((n, n)), 1) + 0.2 * np.tril(np.ones((n, n)), -1)
+        Jn = np.diag([-1.0] + [1.0] * (n - 1))
+        Ff = Cf.T @ Jn @ Cf
+        rc = rep.conjugate(Cf.copy())
+        hf = _lie.hom.form_adjoint(Ff.copy())
+        ad = rc.compose(hf)
+        ctx.label("form_adjoint-of-a-general-form")
+        for w in case["words"][:2]:
+            if len(w) > 6:
+                continue
+            img = np.asarray(rc[wstr(w)], dtype=float)
+            sc_ = max(1.0, O.norm2(img)) ** 2 * cond_of(img) * cond_of(Cf) ** 2
+            ctx.close("compose(form_adjoint(F))[w] = form_adjoint(F)(rho(w))",
+                      np.asarray(ad[wstr(w)], dtype=float), np.asarray(hf(img), dtype=float),
+                      rtol=0, atol=1e-9 * sc_, word=wstr(w))
     # compose / gln_adjoint of a hyperbolic representation are projective representations
     hc = h.compose(lambda M: np.linalg.inv(M).T)
     ctx.check(type(hc) is projective.ProjectiveRepresentation,
@@ -1294,6 +1315,10 @@ def body_history(case, ctx):
                 ctx.close("single letter after the step", np.asarray(rep[x]), model[x][0],
                           rtol=0, atol=64 * n * O.EPS * cmax * max(1.0, O.norm2(model[x][0]))
                           + 1e-13, letter=x)
+                # (what the representation hands out is the caller's to scribble on)
+                scratch = rep[x]
+                if isinstance(scratch, np.ndarray) and scratch.flags.writeable:
+                    scratch *= 0
                 for y in keys[:4]:
                     ctx.close("two-letter word after the step", np.asarray(rep[x + y]),
                               model[x][0] @ model[y][0], rtol=0,
